@@ -89,7 +89,7 @@ def impl(case):
     else:
         h = C.mk_hist(hd)
     nd = h.ndim
-    raw = lambda: repr(h.to_dict()["missed"])
+    raw = lambda: repr([float(x) for x in np.atleast_1d(h.to_dict()["missed"])])
     steps = []
     allv, allw, valid = [], [], True
     for op, call in zip(d["ops"], d["calls"]):
